@@ -38,6 +38,8 @@ class C11(vlib.Spec):
         cases += [pull.rand_xcase(rng, pull.XCOMBS[i % len(pull.XCOMBS)]) for i in range(nx)]
         # pipelines: a source under 2-3 unary combinators, against the composed model
         cases += [pull.rand_pipe(rng) for _ in range(n // 3 if tier == "quick" else n)]
+        # a binary combinator (zip, chain, zip_longest, cross_singleton) over two pipelines
+        cases += [pull.rand_bpipe(rng) for _ in range(n // 4 if tier == "quick" else n)]
         return cases
 
     def n_cases(self, tier):
@@ -47,12 +49,12 @@ class C11(vlib.Spec):
         if case.get("k") == "c11x":
             return pull.c11x_term(case, res)
         if case.get("k") == "c11p":
-            return pull.c11p_term(case, res)
+            return pull.c11b_term(case, res) if case.get("bin") else pull.c11p_term(case, res)
         return pull.c11_term(case, res)
 
     def shrink(self, case):
         if case.get("k") == "c11p":
-            return pull.shrink_pipe(case)
+            return pull.shrink_bpipe(case) if case.get("bin") else pull.shrink_pipe(case)
         return pull.shrink_c11(case) if case.get("k") == "c11" else pull.shrink_x(case)
 
     def nontrivial(self, case, res):
@@ -75,7 +77,10 @@ class C11(vlib.Spec):
         for c in cases:
             if c.get("k") == "c11p":
                 d["pipelines"]["count"] += 1
-                k = str(len(c["stages"]))
+                if c.get("bin"):
+                    d["pipelines"].setdefault("binary_top", {})
+                    d["pipelines"]["binary_top"][c["bin"]] = d["pipelines"]["binary_top"].get(c["bin"], 0) + 1
+                k = str(len(c["stages"]) + (1 if c.get("bin") else 0))
                 d["pipelines"]["depth"][k] = d["pipelines"]["depth"].get(k, 0) + 1
                 for st in c["stages"]:
                     d["pipelines"]["stage"][st["op"]] = d["pipelines"]["stage"].get(st["op"], 0) + 1
